@@ -531,7 +531,10 @@ def check(report, tier, only=None):
         kani.build_and_run(PROP, ['root'], jobs, report)
     obs = [('try_parse', ob_try_parse), ('timeout_header', ob_duration_header), ('inbound_deadline', lambda rep: ob_selection(rep, 'inbound')), ('outbound_deadline', lambda rep: ob_selection(rep, 'outbound')),
            ('inbound_poll', lambda rep: ob_poll(rep, 'inbound')), ('outbound_poll', lambda rep: ob_poll(rep, 'outbound')),
-           ('config', ob_config_accessors), ('wired', ob_wiring), ('peer_call', ob_peer_uses_layer)]
+           ('config', ob_config_accessors), ('wired', ob_wiring), ('peer_call', ob_peer_uses_layer),
+           # the RequestTimeout status produced by the inbound layer reaches the caller only if the stream handler writes what the service returned
+           ('timeout_reply_written', lambda rep: __import__('props.rpcpath', fromlist=['x']).ob_do_handle(rep, PROP)),
+           ('typed_client', ob_typed_client_forwards_request)]
     for n, f in obs:
         if only and not any(s in n for s in only):
             continue
@@ -547,3 +550,68 @@ def implied(ex, pc, c):
 def replay(path):
     print(open(path).read())
     return 0
+
+
+def ob_typed_client_forwards_request(report, prop=None):
+    """rpc::client::Rpc::unary (behind every generated client): the request handed to the transport is the caller's request - its route, its headers (the
+    `timeout` header among them) and its extensions - with only the content type added and the body encoded"""
+    prop = prop or PROP
+
+    def body(ob):
+        ex = e2.executor('anemo', [], max_depth=3)
+        parent = [f for f in find_fns(ex.prog, r'(^|::)<impl>::unary$') if 'client' in f.name or 'client' in (f.impl_span or '')]
+        if len(parent) != 1:
+            return ob.done([ex], 'inconclusive', 'client::Rpc::unary not found', paths=0)
+        fn = find_closure(ex.prog, parent[0], [0])
+        ut = ex.upvar_types(fn)
+        idx = [i for i, t in ut.items() if re.search(r'(^|::)Request<', (t or '').strip())]
+        if len(idx) != 1:
+            return ob.done([ex], 'inconclusive', f'the request parameter of client::Rpc::unary was not identified among its captures {ut}', paths=0)
+        base = e2.upvar_base(ex, fn, idx[0])
+        hf = struct_fields('crates/anemo/src/types/request.rs', 'RequestHeader')
+        rq = struct_fields('crates/anemo/src/types/request.rs', 'Request')
+        head_i = [i for i, t in enumerate(rq.types) if 'RequestHeader' in t]
+        if len(head_i) != 1:
+            return ob.done([ex], 'inconclusive', 'Request has no RequestHeader field', paths=0)
+        hbase = f'{base}.{head_i[0]}'
+        p, args = coroutine_start(ex, fn)
+        res = ex.run(fn, args, p)
+        # what the (generic) codec does decides the body and the content type only: where route, headers and extensions come from does not depend on it
+        ex.unresolved_local = {u for u in getattr(ex, 'unresolved_local', ()) if not re.search(r'Codec>::|Encoder>::|Decoder>::', u)}
+        n = 0
+        for r in res:
+            called = [e for e in r.events if e.kind == 'call' and re.search(r'<T as Service>::call$|Service>::call$', str(e.name))]
+            if not called:
+                continue
+            n += 1
+            req = called[0].args[1]
+            req = ex.deref(r.path, req) if isinstance(req, Ptr) else req
+            head = None
+            if isinstance(req, Agg) and len(req.fields) > head_i[0]:
+                head = req.fields[head_i[0]]
+            elif isinstance(req, Sym) and vname(req).startswith(base):
+                continue            # the caller's request itself
+            if head is None:
+                return ob.done([ex], 'inconclusive', f'request passed to the transport not understood: {vrepr(req)[:80]}', paths=len(res))
+            if isinstance(head, Sym) and vname(head).startswith(hbase):
+                continue            # the caller's header block (content type inserted in place)
+            if not isinstance(head, Agg):
+                return ob.done([ex], 'inconclusive', f'request head not understood: {vrepr(head)[:80]}', paths=len(res))
+            for fname in ('route', 'headers', 'extensions'):
+                if fname not in hf:
+                    continue
+                i = hf.index(fname)
+                fv = head.fields[i] if i < len(head.fields) else None
+                want = f'{hbase}.{i}'
+                if fv is None or not derives_from(fv, lambda v: isinstance(v, Sym) and (v.name.startswith(want) or v.name == hbase), ex=ex, p=r.path):
+                    what = {'headers': 'the caller\'s headers - a `timeout` set with Request::with_timeout included - are dropped: neither the outbound deadline nor the serving side sees them',
+                            'route': 'the caller\'s route is dropped', 'extensions': 'the caller\'s extensions are dropped'}[fname]
+                    sample = path_summary(r)
+                    sample['sent_head'] = vrepr(head)[:300]
+                    return viol(ob, [ex], f'typed client: the request sent to the transport has `{fname}` = {vrepr(fv)[:60]}, not derived from the caller\'s request ({what})',
+                                f'typed-client-drops-{fname}', sample, len(res))
+        if not n:
+            return ob.done([ex], 'inconclusive', 'no path reaches the transport service', paths=len(res))
+        ob.done([ex], 'held', '', {'paths': len(res), 'calls_checked': n}, paths=len(res))
+    return guarded(report, 'typed_client_forwards_request', 'rpc::client::Rpc::unary: route, headers and extensions of the request given to the transport service derive from the caller\'s request',
+                   ['rpc::client::Rpc::unary'], {'inline_depth': 3, 'codec': 'generic (opaque)'}, body)
